@@ -564,6 +564,7 @@ func l1Oracle(c *lib.Ctx, id string, sc l1Scenario, obs []l1Obs) {
 	latest := int64(0)
 	maxSeq := map[int]int64{}
 	gap := map[int]bool{}
+	beforeStart := map[[2]int64]bool{} // (track, number) uploaded while maxNrBufSegs was still 0: that upload deleted nothing
 	registered := 0
 	for i, o := range obs {
 		u := sc.Ups[i]
@@ -641,11 +642,19 @@ func l1Oracle(c *lib.Ctx, id string, sc l1Scenario, obs []l1Obs) {
 			if u.Seq > maxSeq[u.Track] {
 				maxSeq[u.Track] = u.Seq
 			}
+			if i > 0 && obs[i-1].MaxBuf == 0 {
+				beforeStart[[2]int64{int64(u.Track), u.Seq}] = true
+			}
 			// storage window: no file of this track with a number <= newest - maxNrBufSegs once that is known
 			if o.MaxBuf > 0 && i > 0 && obs[i-1].MaxBuf > 0 {
 				for _, f := range o.Files {
 					if int(f[0]) == u.Track && f[1] <= maxSeq[u.Track]-o.MaxBuf {
-						pre["gap_in_track"] = gap[u.Track]
+						if gap[u.Track] {
+							pre["gap_in_track"] = true
+						}
+						if beforeStart[[2]int64{f[0], f[1] + o.MaxBuf}] {
+							pre["deleting_upload_before_start"] = true
+						}
 						fail(i, "files:outside-window", fmt.Sprintf("track %s still stores segment %d, newest %d, maxNrBufSegs %d", sc.Tracks[u.Track].Name, f[1], maxSeq[u.Track], o.MaxBuf))
 						return
 					}
